@@ -110,6 +110,11 @@ def iterLoop (bs : Nat) : List Nat → Option Nat → List Nat → List Nat → 
 /-- integer ceiling of the true quotient, `math.ceil(a / b)` (see Bridge/C13 for the float caveat) -/
 def ceilDiv (a b : Nat) : Nat := (a + b - 1) / b
 
+/-- `math.ceil(a / b)` as the translator emits it: the exact ceiling of the rational quotient, Python
+floor-division semantics.  (binary64 true division followed by `ceil` agrees with it for
+|a|, |b| < 2^53 — recorded assumption, probed by the oracle.) -/
+def pyCeilTrueDiv (a b : Int) : Int := -(Int.fdiv (-a) b)
+
 /-- the `BatchVolumeSampler` object after `__init__`. -/
 structure BVS where
   indices : List Nat       -- `list(self.sampler)`
